@@ -122,14 +122,18 @@ func (s *State) catFacts(r, a, b string) {
 	}
 	s.strBasics(a)
 	s.strBasics(b)
+	s.strBasics(r)
+	s.assume(implies(and(app("sgr", a), app("sgr", b)), app("sgr", r)))
 }
 
 func (s *State) strBasics(a string) {
 	s.assume(and(app("<=", "0", app("blen", a)), app("<=", "0", app("nl", a)), app("<=", "0", app("vlen", a))))
+	s.assume(and(app("<=", app("blen", a), "9223372036854775807"), app("<=", app("+", app("nl", a), app("vlen", a)), app("blen", a))))
 	s.assume(eq(app("noNL", a), eq(app("nl", a), "0")))
 	s.assume(implies(app("clean", a), app("wf", a)))
 	s.assume(implies(app("digits", a), and(app("clean", a), app("noNL", a), app("noCTL", a))))
 	s.assume(implies(app("noCTL", a), and(app("clean", a), app("noNL", a))))
+	s.assume(implies(app("sgr", a), and(app("noCTL", a), app(">=", app("blen", a), "1"))))
 	s.assume(eq(eq(app("blen", a), "0"), eq(a, "emp")))
 }
 
